@@ -1,117 +1,75 @@
 (* The table lemma: the rows regenerated from the code the real pilota-build emitted for the corpus ARE the rows the
-   template model prescribes for the corpus schema -- by computation, on every run, for the plain and for the
-   keep_unknown_fields configuration; and the chain  emitted text -> ops -> Gen.v  for the corpus. *)
+   template model prescribes for the schema of the configuration (schema.txt restricted to the types that configuration
+   emits) -- by computation, on every run, for the plain and for the keep_unknown_fields configuration; and the chain
+   emitted text -> ops -> Gen.v  for the corpus. *)
 From Coq Require Import String Lia.
-From PVGen Require Import Gen GenSpec EmitOps EmitDen Generated.EmittedOps Proofs.GenBase Proofs.EmitOpsP Proofs.EmitDecP.
+From PVGen Require Import Gen GenSpec EmitOps EmitDen Generated.EmittedOps Proofs.GenBase Proofs.EmitOpsP Proofs.EmitDecP Proofs.EmitNormP.
 Open Scope Z_scope.
 
 (* ---------- generic: what ops_match says about one row ---------- *)
-Lemma mask_row : forall em pr n r x,
-  map norm_row em = mask em pr -> nth_error em n = Some r -> r <> ENone -> nth_error pr n = Some x -> norm_row r = x.
-Proof.
-  induction em as [|e em IH]; intros pr n r x H Hn Hr Hx; [destruct n; discriminate Hn|].
-  destruct pr as [|y pr]; [destruct n; discriminate Hx|].
-  destruct n as [|n].
-  - cbn in Hn, Hx. injection Hn as ->. injection Hx as ->.
-    destruct r; [exfalso; apply Hr; reflexivity| | | |]; cbn [map mask] in H; injection H as H1 H2; exact H1.
-  - cbn in Hn, Hx. apply (IH pr n r x); try assumption.
-    destruct e; cbn [map mask] in H; [injection H as H2|injection H as H1 H2|injection H as H1 H2|injection H as H1 H2|injection H as H1 H2]; exact H2.
-Qed.
-
 Lemma ops_match_row S ck em n r d :
-  ops_match S ck em -> nth_error em n = Some r -> r <> ENone -> lookup S n = Some d ->
+  ops_match S ck em -> nth_error em n = Some r -> lookup S n = Some d ->
   norm_row r = presc_row S ck d /\ names_ok r = true.
 Proof.
-  intros [Hm Hn] Hr Hne Hd. split.
-  - apply (mask_row em (presc_tbl S ck) n r _ Hm Hr Hne). unfold presc_tbl. rewrite nth_error_map. unfold lookup in Hd. rewrite Hd. reflexivity.
+  intros [Hm Hn] Hr Hd. split.
+  - assert (E : nth_error (map norm_row em) n = Some (norm_row r)) by (rewrite nth_error_map, Hr; reflexivity).
+    rewrite Hm in E. unfold presc_tbl in E. rewrite nth_error_map in E. unfold lookup in Hd. rewrite Hd in E. cbn in E.
+    injection E as E. symmetry. exact E.
   - rewrite forallb_forall in Hn. exact (Hn r (nth_error_In _ _ Hr)).
 Qed.
 
 (* ---------- the corpus of this run ---------- *)
-Theorem emitted_plain_match : ops_match corpus_schema false emitted_plain.
+Theorem emitted_plain_match : ops_match schema_plain false emitted_plain.
 Proof. split; vm_compute; reflexivity. Qed.
 
-Theorem emitted_keep_match : ops_match corpus_schema true emitted_keep.
+Theorem emitted_keep_match : ops_match schema_keep true emitted_keep.
 Proof. split; vm_compute; reflexivity. Qed.
 
-(* non-vacuity: the tables are not empty, every type of the schema is emitted in the plain configuration, and the rows are
-   not all trivial *)
+(* non-vacuity: the tables are not empty and have a row for every type of their schema *)
 Lemma table_nonempty :
-  (0 < length corpus_schema)%nat /\ present emitted_plain = length corpus_schema /\ (0 < present emitted_keep)%nat /\
-  length emitted_keep = length corpus_schema.
+  (0 < length schema_plain)%nat /\ length emitted_plain = length schema_plain /\
+  (0 < length schema_keep)%nat /\ length emitted_keep = length schema_keep.
 Proof. vm_compute. repeat split; apply PeanoNat.Nat.ltb_lt; reflexivity. Qed.
 
-Lemma corpus_void_variants_zero : void_variants_zero corpus_schema = true.
+Lemma plain_void_variants_zero : void_variants_zero schema_plain = true.
 Proof. vm_compute. reflexivity. Qed.
+Lemma keep_void_variants_zero : void_variants_zero schema_keep = true.
+Proof. vm_compute. reflexivity. Qed.
+Lemma plain_wf : wf_schema schema_plain = true.
+Proof. vm_compute. reflexivity. Qed.
+
+Theorem emitted_ops_match :
+  ops_match schema_plain false emitted_plain /\ ops_match schema_keep true emitted_keep /\
+  (0 < length emitted_plain)%nat /\ (0 < length emitted_keep)%nat.
+Proof.
+  split; [exact emitted_plain_match|]. split; [exact emitted_keep_match|].
+  destruct table_nonempty as (H1 & H2 & H3 & H4). rewrite H2, H4. split; assumption.
+Qed.
 
 (* every emitted row of either configuration, normalised, is the prescription for its schema entry *)
 Theorem emitted_row_is_prescribed : forall n r d,
-  lookup corpus_schema n = Some d ->
-  (nth_error emitted_plain n = Some r -> r <> ENone -> norm_row r = presc_row corpus_schema false d /\ names_ok r = true) /\
-  (nth_error emitted_keep n = Some r -> r <> ENone -> norm_row r = presc_row corpus_schema true d /\ names_ok r = true).
+  (nth_error emitted_plain n = Some r -> lookup schema_plain n = Some d -> norm_row r = presc_row schema_plain false d /\ names_ok r = true) /\
+  (nth_error emitted_keep n = Some r -> lookup schema_keep n = Some d -> norm_row r = presc_row schema_keep true d /\ names_ok r = true).
 Proof.
-  intros n r d Hd. split; intros Hr Hne.
-  - exact (ops_match_row _ _ _ n r d emitted_plain_match Hr Hne Hd).
-  - exact (ops_match_row _ _ _ n r d emitted_keep_match Hr Hne Hd).
-Qed.
-
-(* the plain table as a whole *)
-Lemma mask_all_present : forall em pr, length em = length pr -> present em = length em -> mask em pr = pr.
-Proof.
-  induction em as [|e em IH]; intros pr Hl Hp; [destruct pr; [reflexivity|discriminate Hl]|].
-  destruct pr as [|y pr]; [discriminate Hl|]. cbn [length] in Hl. injection Hl as Hl.
-  assert (Hle : forall l, (present l <= length l)%nat).
-  { induction l as [|a l IHl]; [apply le_n|]. unfold present in *. cbn [filter]. destruct a; cbn [length]; lia. }
-  unfold present in Hp. cbn [filter length] in Hp.
-  destruct e; cbn [length] in Hp;
-    try (cbn [mask]; f_equal; apply IH; [exact Hl|unfold present; lia]).
-  exfalso. specialize (Hle em). unfold present in Hle. lia.
-Qed.
-
-Theorem emitted_plain_table : map norm_row emitted_plain = presc_tbl corpus_schema false.
-Proof.
-  destruct emitted_plain_match as [Hm _]. rewrite Hm. apply mask_all_present.
-  - unfold presc_tbl. rewrite map_length. vm_compute. reflexivity.
-  - vm_compute. reflexivity.
-Qed.
-
-(* ---------- the chain for the corpus: the normalised emitted rows of the plain build denote the model ---------- *)
-Theorem emitted_encode_is_model : forall p k t v, no_uu v = true ->
-  den_enc (map norm_row emitted_plain) p k (presc_vop corpus_schema t) v = enc_ty corpus_schema p k t v.
-Proof.
-  intros p k t v Hv. rewrite emitted_plain_table.
-  exact (den_enc_presc corpus_schema false p corpus_void_variants_zero k v t (or_intror Hv)).
-Qed.
-
-Theorem emitted_size_is_model : forall p t v, no_uu v = true ->
-  den_size (map norm_row emitted_plain) p (presc_vop corpus_schema t) v = size_ty corpus_schema p t v.
-Proof.
-  intros p t v Hv. rewrite emitted_plain_table.
-  exact (den_size_presc corpus_schema false p corpus_void_variants_zero v t (or_intror Hv)).
-Qed.
-
-Theorem emitted_ops_match :
-  ops_match corpus_schema false emitted_plain /\ ops_match corpus_schema true emitted_keep /\
-  present emitted_plain = length corpus_schema /\ (0 < present emitted_keep)%nat.
-Proof.
-  split; [exact emitted_plain_match|]. split; [exact emitted_keep_match|].
-  destruct table_nonempty as (_ & H1 & H2 & _). split; assumption.
+  intros n r d. split; intros Hr Hd.
+  - exact (ops_match_row _ _ _ n r d emitted_plain_match Hr Hd).
+  - exact (ops_match_row _ _ _ n r d emitted_keep_match Hr Hd).
 Qed.
 
 (* the decoder of a struct / of a union, in either configuration: variables, loop head, arms (id, TType guard, variable,
    Some-wrapping, read op, countdown), skip arm, retention statements, required checks, late defaults, construction *)
-Theorem emitted_decode_arms : forall n r ck em,
-  (ck = false /\ em = emitted_plain) \/ (ck = true /\ em = emitted_keep) ->
-  nth_error em n = Some r -> r <> ENone ->
-  (forall fs keep ia, lookup corpus_schema n = Some (DStruct fs keep ia) ->
-     exists nm e eu s su d, r = EStruct nm e eu s su d /\ norm_ds d = presc_dstruct corpus_schema ck fs keep ia) /\
-  (forall vs vo keep, lookup corpus_schema n = Some (DUnion vs vo keep) ->
-     exists nm e eu s su d, r = EUnion nm e eu s su d /\ norm_du d = presc_dunion corpus_schema ck vs vo keep).
+Theorem emitted_decode_arms : forall n r ck em S,
+  (ck = false /\ em = emitted_plain /\ S = schema_plain) \/ (ck = true /\ em = emitted_keep /\ S = schema_keep) ->
+  nth_error em n = Some r ->
+  (forall fs keep ia, lookup S n = Some (DStruct fs keep ia) ->
+     exists nm e eu s su d, r = EStruct nm e eu s su d /\ norm_ds d = presc_dstruct S ck fs keep ia) /\
+  (forall vs vo keep, lookup S n = Some (DUnion vs vo keep) ->
+     exists nm e eu s su d, r = EUnion nm e eu s su d /\ norm_du d = presc_dunion S ck vs vo keep).
 Proof.
-  intros n r ck em Hc Hr Hne.
-  assert (Hrow : forall d, lookup corpus_schema n = Some d -> norm_row r = presc_row corpus_schema ck d).
-  { intros d Hd. destruct (emitted_row_is_prescribed n r d Hd) as [Hp Hk].
-    destruct Hc as [[-> ->]|[-> ->]]; [exact (proj1 (Hp Hr Hne))|exact (proj1 (Hk Hr Hne))]. }
+  intros n r ck em S Hc Hr.
+  assert (Hrow : forall d, lookup S n = Some d -> norm_row r = presc_row S ck d).
+  { intros d Hd. destruct (emitted_row_is_prescribed n r d) as [Hp Hk].
+    destruct Hc as [(-> & -> & ->)|(-> & -> & ->)]; [exact (proj1 (Hp Hr Hd))|exact (proj1 (Hk Hr Hd))]. }
   split.
   - intros fs keep ia Hd. specialize (Hrow _ Hd). cbn [presc_row] in Hrow.
     destruct r as [|nm e eu s su d|nm e eu s su d|nm|nm e s d]; try discriminate Hrow.
@@ -123,13 +81,33 @@ Proof.
     exact (f_equal (fun x => match x with EUnion _ _ _ _ _ y => y | _ => norm_du d end) Hrow).
 Qed.
 
-(* the decoders of the plain build: arbitrary bytes, every fuel *)
-Lemma corpus_wf : wf_schema corpus_schema = true.
-Proof. vm_compute. reflexivity. Qed.
-
-Theorem emitted_decode_is_model : forall p fuel t s,
-  den_dec (map norm_row emitted_plain) (dfl_of corpus_schema) p fuel (presc_rop t) s = gen_decode corpus_schema p fuel t s.
+(* ---------- the chain for the corpus: the rows AS LOWERED from the text denote the model ---------- *)
+Theorem emitted_encode_is_model : forall p k t v,
+  (no_uu v = true -> den_enc emitted_plain p k (presc_vop schema_plain t) v = enc_ty schema_plain p k t v) /\
+  den_enc emitted_keep p k (presc_vop schema_keep t) v = enc_ty schema_keep p k t v.
 Proof.
-  intros p fuel t s. rewrite emitted_plain_table.
-  exact (den_dec_presc corpus_schema p corpus_void_variants_zero corpus_wf fuel t s).
+  intros p k t v. split.
+  - intros Hv. rewrite <- den_enc_norm, norm_presc_vop, (proj1 emitted_plain_match).
+    exact (den_enc_presc schema_plain false p plain_void_variants_zero k v t (or_intror Hv)).
+  - rewrite <- den_enc_norm, norm_presc_vop, (proj1 emitted_keep_match).
+    exact (den_enc_presc schema_keep true p keep_void_variants_zero k v t (or_introl eq_refl)).
+Qed.
+
+Theorem emitted_size_is_model : forall p t v,
+  (no_uu v = true -> den_size emitted_plain p (presc_vop schema_plain t) v = size_ty schema_plain p t v) /\
+  den_size emitted_keep p (presc_vop schema_keep t) v = size_ty schema_keep p t v.
+Proof.
+  intros p t v. split.
+  - intros Hv. rewrite <- den_size_norm, norm_presc_vop, (proj1 emitted_plain_match).
+    exact (den_size_presc schema_plain false p plain_void_variants_zero v t (or_intror Hv)).
+  - rewrite <- den_size_norm, norm_presc_vop, (proj1 emitted_keep_match).
+    exact (den_size_presc schema_keep true p keep_void_variants_zero v t (or_introl eq_refl)).
+Qed.
+
+(* the decoders of the plain build: arbitrary bytes, every fuel *)
+Theorem emitted_decode_is_model : forall p fuel t s,
+  den_dec emitted_plain (dfl_of schema_plain) p fuel (presc_rop t) s = gen_decode schema_plain p fuel t s.
+Proof.
+  intros p fuel t s. rewrite <- den_dec_norm, norm_presc_rop, (proj1 emitted_plain_match).
+  exact (den_dec_presc schema_plain p plain_void_variants_zero plain_wf fuel t s).
 Qed.
